@@ -47,7 +47,7 @@ ASSUMPTIONS = [
     "(CRC word, BCA CRC words, Vx digest/signature/ISK certificate)",
 ]
 REQUIRED_COUNTERS = ["export_ok", "parse_attempted", "payload_compared", "settings_compared", "header_words_checked",
-                     "reexport_compared", "stage_pairs_checked", "cli_roundtrips"]
+                     "reexport_compared", "second_export_compared", "stage_pairs_checked", "cli_roundtrips"]
 CASE_TIMEOUT_S = 180
 WATCHDOG_S = {"quick": 900, "thorough": 5400}
 
@@ -141,13 +141,13 @@ def cases(tier, seed):  # noqa: ARG001
         for info in G.images(fam, rev):
             for k in range(2 if tier == "quick" else 24):
                 yield {"kind": "gen", "family": fam, "target": info["target"], "auth": info["auth"], "k": k, "rev": rev,
-                       "want": {"revision": rev, "tz": "custom" if k % 2 == 0 else None}}
+                       "want": {"revision": rev, "tz": "custom" if k % 2 == 0 else None}, "cli": k == 0}
     # ... and the revisions whose image classes themselves differ from the latest revision
     for fam, rev in G.mbi_revisions():
         for info in G.images(fam, rev):
             for k in range(6 if tier == "quick" else 60):
                 yield {"kind": "gen", "family": fam, "target": info["target"], "auth": info["auth"], "k": k, "rev": rev,
-                       "want": {"revision": rev}}
+                       "want": {"revision": rev}, "cli": k == 0}
 
 
 def _info(family, target, auth, revision="latest"):
@@ -589,6 +589,29 @@ def _run(case, ctx, b, SPSDKError, MasterBootImage):  # noqa: C901
     if same_class and ctx._viol_in_case == viol0:
         _reexport(ctx, b, par, data, rep, viol, SPSDKError)
 
+    # ---- 6b. the built object asked a second time: export must not consume or shift any of its state ----------
+    if ctx._viol_in_case == viol0:
+        try:
+            data_b = bytes(obj.export())
+        except SPSDKError as e:
+            viol(f"second-export-refused:{export_mixin(b)}", exception=core.exc_brief(e))
+            data_b = None
+        if data_b is not None:
+            ctx.count("second_export_compared")
+            if o.get("iv", 0) is None:
+                # the counter IV is SPSDK's own random choice: judge the second file by what it parses to
+                try:
+                    par_b = MasterBootImage.parse(family, data_b, dek=b.dek, revision=b.revision)
+                    same = bytes(par_b.app or b"") == got_app and len(data_b) == len(data)
+                except Exception as e:  # pylint: disable=broad-except
+                    if not core.is_refusal(e) and core.origin_of(e) != "repo":
+                        raise
+                    same = False
+                if not same:
+                    viol(f"second-export-differs:{export_mixin(b)}", len1=len(data), len2=len(data_b), iv="random")
+            elif not _eq_outside(data_b, data, _sig_field(b, data, rep) + _isk_dependent(b, data, rep)):
+                viol(f"second-export-differs:{export_mixin(b)}", first_diff=_first_diff(data_b, data), len1=len(data), len2=len(data_b))
+
     # ---- 7. CLI --------------------------------------------------------------------------------------
     if case.get("cli") and ctx._viol_in_case == viol0:
         _cli(ctx, b, data, rep, want_app, dontcare, viol)
@@ -838,6 +861,8 @@ def _cli(ctx, b, data, rep, want_app, dontcare, viol):
         return
     out_dir = os.path.join(b.dir, "cli_parsed")
     args = ["mbi", "parse", "-f", b.family, "-b", cfg["masterBootOutputFile"], "-o", out_dir]
+    if b.revision != "latest":
+        args += ["-r", b.revision]
     if b.dek:
         args += ["-k", b.dek]
     r = runner.invoke(nxpimage.main, args, catch_exceptions=True)
